@@ -91,3 +91,17 @@ Theorem C20_never_raises : forall s k, In k fc_keys ->
   eval_93x k s = Ok fulfilled_v \/ eval_93x k s = Ok unfulfilled_v.
 Proof. exact never_raises. Qed.
 Print Assumptions C20_never_raises.
+
+(* ---- what is in front of the datetime counts: a string whose first character is not an ASCII digit is no datetime (fromisoformat reads the year first), so
+   an input with white space in front of a fulfilling datetime is unfulfilled, with a message, for all five -- the input is judged as entered, not trimmed.
+   (White space BEHIND the datetime is covered by the correspondence only: the padded strings of vlib/props/c20.py.) *)
+From Ahb Require Import Proofs.C20_padded.
+Theorem C20_first_character_must_be_a_digit : forall c s, is_ascii_digit c = false -> parse_as_datetime (c :: s) = PErr.
+Proof. exact first_character_is_a_digit. Qed.
+Print Assumptions C20_first_character_must_be_a_digit.
+
+Theorem C20_leading_white_space_is_no_datetime : forall c s, In c [32; 9; 10; 13; 11; 12; 160; 8239; 12288]%N ->
+  eval_931 (c :: s) = Ok unfulfilled_v /\ eval_932 (c :: s) = Ok unfulfilled_v /\ eval_933 (c :: s) = Ok unfulfilled_v /\
+  eval_934 (c :: s) = Ok unfulfilled_v /\ eval_935 (c :: s) = Ok unfulfilled_v.
+Proof. exact leading_white_space_is_no_datetime. Qed.
+Print Assumptions C20_leading_white_space_is_no_datetime.
